@@ -24,7 +24,7 @@ RULE = ('faults = positions/values at which a pipeline function raises (any oper
         'failing elements removed (skipping on) or up to the first failing element (skipping off: original exception in the cause '
         'chain, nothing delivered out of order, sinks closed, helper threads ended); non-trivial = a failing element that is not '
         'the last one together with >= 2 operators, a batching option or threads; distinct = distinct canonical case JSON'
-        '; also: failing source reads under operator programs (iterator sources, threads), abc.Sequence / list-subclass / index-only sources, runs of 127..150 consecutive failing reads, unreadable input batches under re-batching; after an error next() must not hand out further elements; a runner reused after an earlier pass with the same / the opposite skipping setting')
+        '; also: failing source reads under operator programs (iterator sources, threads), abc.Sequence / list-subclass / index-only sources, runs of 127..150 consecutive failing reads, unreadable input batches under re-batching; after an error next() must not hand out further elements; a runner reused after an earlier pass with the same / the opposite skipping setting; pipelines of a data source and no operator')
 ASSUMPTIONS = [
     'every exception raised by a pipeline function is skippable (TreeFn wraps it into ValueError "Failed to call"); an error while '
     'fetching inputs (missing key) or a non-ValueError/TypeError from the data source is not',
@@ -107,6 +107,9 @@ def run_ops(case):
     data = copy.deepcopy(records)
     src = io.SequenceDataSource(FailingSeq(data, bad, 'ValueError') if bad else data)
     runner = t.make()
+    no_ops = not prog['ops']      # a pipeline of a data source and nothing else: the source is part of the transform
+    if no_ops:
+      runner = t.data_source(src).make()
     if prior:
       data0 = copy.deepcopy(records)
       src0 = io.SequenceDataSource(FailingSeq(data0, bad, 'ValueError') if bad else data0)
@@ -119,7 +122,7 @@ def run_ops(case):
       for s_ in sinks:
         s_.data.clear()
         s_.closed = 0
-    it = runner.iterate(iter(src) if as_iter else src, ignore_error=skip)
+    it = runner.iterate(ignore_error=skip) if no_ops else runner.iterate(iter(src) if as_iter else src, ignore_error=skip)
     try:
       for x in it:
         got.append(x)
@@ -190,7 +193,13 @@ def strat_ops(tier):
     if records and draw(st.integers(0, 3)) == 0:
       case['bad_reads'] = draw(st.lists(st.integers(0, len(records) - 1), min_size=1, max_size=2))
     case['source_as'] = draw(st.sampled_from(['source', 'source', 'iterator']))
+    if len(records) >= 2 and draw(st.integers(0, 9)) == 0:
+      # the degenerate pipeline: a data source and no operator at all; one read fails
+      case['prog'] = dict(prog, ops=[])
+      case['bad_reads'] = [draw(st.integers(0, len(records) - 2))]
     case['prior'] = draw(st.sampled_from([None, None, None, 'same', 'opposite']))
+    if not case['prog']['ops']:
+      case['prior'] = None
     return case
   return s()
 
